@@ -26,12 +26,23 @@ Proof. exact mutation_all_or_nothing. Qed.
 Print Assumptions C01_mutation_all_or_nothing.
 
 (* (3) an accepted deletion removes only rows / references the history grants *)
-Theorem C01_deletion_holds : forall defs me now ns es,
-  validate_deletion me now (build_rooms defs) ns es = VOk ->
+Theorem C01_deletion_holds : forall defs me now ns es upd,
+  validate_deletion me now (build_rooms defs) ns es upd = VOk ->
   forallb (fun n => del_entitled defs me now (dn_kind n) (dn_ent n) (dn_room n) (dn_author n) (dn_date n)) ns = true /\
-  forallb (fun n => del_entitled defs me now (de_kind n) (de_ent n) (de_room n) (de_author n) (de_date n)) es = true.
+  forallb (fun n => del_entitled defs me now (de_kind n) (de_ent n) (de_room n) (de_author n) (de_date n)) es = true /\
+  forallb (upd_entitled defs me now) upd = true.
 Proof. exact deletion_entitled. Qed.
 Print Assumptions C01_deletion_holds.
+
+(* (4) stated on the very functions the correspondence run evaluates: on every mutation, deletion
+   and end-to-end case, what the model answers satisfies the property's oracle (accepted only if
+   granted; refused leaves the database unchanged) — so an implementation that agrees with the
+   model on a case cannot violate the property on it *)
+Theorem C01_model_satisfies_oracle : forall c,
+  wf_case c = true ->
+  match c with CMatrix _ _ => True | _ => spec_C01 c (run_C01 c) = true end.
+Proof. exact model_accepts_only_entitled. Qed.
+Print Assumptions C01_model_satisfies_oracle.
 
 Example C01_nonvacuous_ex :
   let defs := [(1%N, [EvGroup 1%N; EvUser 1%N 2%N 10 true; EvRight 1%N 0%N 10 true false])] in
